@@ -51,7 +51,12 @@ pub fn values() -> Vec<Vec<u8>> {
 
 /// Index-type operands (count/position/size), in addition to V.
 fn index_values() -> Vec<Vec<u8>> {
-    vec![h("03"), h("04"), h("05"), h("08"), h("09"), h("10"), h("14"), h("15"), h("21"), h("22"), h("ffffff7f"), h("83")]
+    // small counts, then 2/3/4-byte operands with a single high bit in each byte position (decoders that mask the wrong byte),
+    // non-minimal small counts, the largest 4-byte value and a negative count
+    vec![
+        h("03"), h("04"), h("05"), h("08"), h("09"), h("10"), h("14"), h("15"), h("21"), h("22"), h("ffffff7f"), h("83"),
+        h("8000"), h("0180"), h("010080"), h("01008000"), h("00008000"), h("08008000"), h("01800000"), h("01000080"), h("02000000"), h("0900"),
+    ]
 }
 
 #[derive(Clone, Copy)]
@@ -228,9 +233,9 @@ pub fn spaces(tier: Tier) -> Vec<Space> {
     // (a') size/count operands large enough to make an implementation allocate: child processes with an allocation budget
     {
         let vals = vals.clone();
-        let big: Vec<Vec<u8>> = vec![h("ffffff7f"), h("ffffff00"), h("0000008000"), h("ffff7f")];
-        v.push(Space::isolated("huge-operands", 3 * 22 * 4 * 2, move |case, acc| {
-            let c = crate::engine::coords(case.idx, &[3, 22, 4, 2]);
+        let big: Vec<Vec<u8>> = vec![h("ffffff7f"), h("ffffff00"), h("0000008000"), h("ffff7f"), h("01008000"), h("00008000"), h("08008000"), h("01000080")];
+        v.push(Space::isolated("huge-operands", 3 * 22 * 8 * 2, move |case, acc| {
+            let c = crate::engine::coords(case.idx, &[3, 22, 8, 2]);
             let op = [0x80u8, 0x98, 0x99][c[0] as usize];
 
             let st: Stack = if c[3] == 0 { vec![vals[c[1] as usize].clone(), big[c[2] as usize].clone()] } else { vec![big[c[2] as usize].clone(), vals[c[1] as usize].clone()] };
@@ -245,6 +250,27 @@ pub fn spaces(tier: Tier) -> Vec<Space> {
             let d = check_program(&toks, acc, case, &desc);
             crate::iso::disarm();
             if let Some(d) = d {
+                report(acc, case, &toks, &d, &desc);
+            }
+        }));
+    }
+    // (a'') large items: results whose size crosses every script-number encoding threshold (OP_SIZE, CAT, SPLIT, NUM2BIN on big blobs)
+    {
+        let sizes: Vec<usize> = vec![127, 128, 255, 256, 32767, 32768, 65535, 65536, 524287, 524288, 600000, 8388607, 8388608];
+        let ns = sizes.len() as u64;
+        v.push(Space::new("large-items", ns * 4, move |case, acc| {
+            let c = crate::engine::coords(case.idx, &[ns, 4]);
+            let n = sizes[c[0] as usize];
+            let blob: Vec<u8> = (0..n).map(|i| (i % 251) as u8 | 1).collect();
+            let toks: Vec<Tok> = match c[1] {
+                0 => vec![rs::minimal_push(&blob), Tok::Op(0x82)],
+                1 => vec![rs::minimal_push(&blob), Tok::Op(0x82), Tok::Op(0x82)],
+                2 => vec![rs::minimal_push(&blob), Tok::Op(0x76), Tok::Op(0x7e), Tok::Op(0x82), Tok::Op(0x77)],
+                _ => vec![rs::minimal_push(&blob), Tok::Op(0x51), Tok::Op(0x7f), Tok::Op(0x82), Tok::Op(0x77), Tok::Op(0x77)],
+            };
+            let pname = ["SIZE", "SIZE SIZE", "DUP CAT SIZE NIP", "1 SPLIT SIZE NIP NIP"][c[1] as usize];
+            let desc = || json!({"item_size": n, "program": pname});
+            if let Some(d) = check_program(&toks, acc, case, &desc) {
                 report(acc, case, &toks, &d, &desc);
             }
         }));
@@ -331,6 +357,38 @@ pub fn spaces(tier: Tier) -> Vec<Space> {
                             }
                         }
                     }
+                }
+            }
+        }));
+    }
+    // (c') thorough: depth-3 chaining from every stack of depth <= 2 over V3; only divergences at the third opcode are new information
+    if thorough {
+        let (vals, specs) = (vals.clone(), specs.clone());
+        let mut inits: Vec<Stack> = vec![vec![]];
+        for a in 0..3 {
+            inits.push(vec![vals[a].clone()]);
+            for b in 0..3 {
+                inits.push(vec![vals[a].clone(), vals[b].clone()]);
+            }
+        }
+        let inits = Arc::new(inits);
+        let ni = inits.len() as u64;
+        let ns = specs.len() as u64;
+        v.push(Space::new("chain3", ni * ns * ns * ns, move |case, acc| {
+            let c = crate::engine::coords(case.idx, &[ni, ns, ns, ns]);
+            let s0 = &inits[c[0] as usize];
+            let ops = [specs[c[1] as usize].op, specs[c[2] as usize].op, specs[c[3] as usize].op];
+            let mut toks = pushes_for(s0, &vec![]);
+            let n_push = toks.len();
+            for o in ops {
+                toks.push(Tok::Op(o));
+            }
+            let desc = || json!({"initial_stack": show_stack(s0), "ops": [opname(ops[0]), opname(ops[1]), opname(ops[2])]});
+            if let Some(d) = check_program(&toks, acc, case, &desc) {
+                if d.tok >= n_push + 2 {
+                    report(acc, case, &toks, &d, &desc);
+                } else {
+                    acc.bump("chain3_divergence_before_third_opcode_left_to_other_spaces", 1);
                 }
             }
         }));
@@ -422,7 +480,7 @@ fn run(ctx: &Ctx) -> Report {
     );
     let specs = opspecs();
     let ops: BTreeSet<String> = specs.iter().map(|s| opname(s.op)).collect();
-    r.bounds = json!({"value_alphabet": values().iter().map(hex::encode).collect::<Vec<_>>(), "index_alphabet": index_values().iter().map(hex::encode).collect::<Vec<_>>(), "opcodes": ops, "chain_depth": 2, "conditional_nesting": 3});
+    r.bounds = json!({"value_alphabet": values().iter().map(hex::encode).collect::<Vec<_>>(), "index_alphabet": index_values().iter().map(hex::encode).collect::<Vec<_>>(), "opcodes": ops, "chain_depth": if ctx.tier.is_thorough() {3} else {2}, "conditional_nesting": 3});
     r.assumptions.push("excluded from conformance (ambiguous under Genesis rules): OP_2MUL, OP_2DIV, CLTV, CSV, OP_VER, OP_VERIF, OP_VERNOTIF, OP_RESERVED*, repeated OP_ELSE, index operands longer than 4 bytes, NUM2BIN sizes above 1 MiB".into());
     run_spaces_for("C14", ctx, &mut r, spaces(ctx.tier));
     r
